@@ -1,1 +1,822 @@
-(* C03 - to be filled *)
+(* C03: lemmas.  Script level (the address expression, single-segment mode) and link level (where LdSem
+   places the two output sections of a segment and what the VRAM symbols get). *)
+From Slinky Require Import Model.Types Model.Generated Model.Parse Model.Runtime Model.Style Model.Script Model.Writer Model.LdSem.
+From Slinky Require Import Spec.C17 Spec.C04 Spec.C03 Proofs.C06 Proofs.C18 Proofs.C17 Proofs.LdLemmas Proofs.C04.
+From Coq Require Import Lia ZArith.
+
+(* ====================================================================== *)
+(* script level                                                            *)
+(* ====================================================================== *)
+
+Lemma addr_spec sty seg : at_most_one_addr seg -> AddrSpec sty seg (segment_addr sty seg).
+Proof.
+  unfold at_most_one_addr, addr_fields, AddrSpec, segment_addr.
+  destruct (sg_fixed_vram seg) as [v|], (sg_fixed_symbol seg) as [s|], (sg_follows_segment seg) as [f|],
+    (sg_vram_class seg) as [c|]; cbn [is_some b2n]; intro H; try lia;
+    repeat split; intros; try discriminate; try congruence.
+Qed.
+
+Lemma combo_ok a b f1 f2 u : combo a b f1 f2 = Ok u -> andb a b = false.
+Proof. unfold combo. destruct (andb a b); [discriminate|reflexivity]. Qed.
+
+Lemma parse_segment_at_most_one st s seg : parse_segment st s = Ok seg -> at_most_one_addr seg.
+Proof.
+  unfold parse_segment. intro H.
+  apply bind_ok in H. destruct H as [u1 [_ H]].
+  apply bind_ok in H. destruct H as [u2 [_ H]].
+  apply bind_ok in H. destruct H as [files [_ H]].
+  apply bind_ok in H. destruct H as [fv [_ H]].
+  apply bind_ok in H. destruct H as [fs [_ H]].
+  apply bind_ok in H. destruct H as [fo [_ H]].
+  apply bind_ok in H. destruct H as [vc [_ H]].
+  apply bind_ok in H. destruct H as [c1 [C1 H]]. apply combo_ok in C1.
+  apply bind_ok in H. destruct H as [c2 [C2 H]]. apply combo_ok in C2.
+  apply bind_ok in H. destruct H as [c3 [C3 H]]. apply combo_ok in C3.
+  apply bind_ok in H. destruct H as [c4 [C4 H]]. apply combo_ok in C4.
+  apply bind_ok in H. destruct H as [c5 [C5 H]]. apply combo_ok in C5.
+  apply bind_ok in H. destruct H as [c6 [C6 H]]. apply combo_ok in C6.
+  repeat (apply bind_ok in H; destruct H as [? [_ H]]).
+  apply ok_inj in H. subst seg. unfold at_most_one_addr, addr_fields. cbn [sg_fixed_vram sg_fixed_symbol
+    sg_follows_segment sg_vram_class].
+  destruct fv, fs, fo, vc; cbn in *; try discriminate; lia.
+Qed.
+
+Lemma class_pass_down_addr classes seg :
+  sg_fixed_vram (class_pass_down classes seg) = sg_fixed_vram seg /\
+  sg_fixed_symbol (class_pass_down classes seg) = sg_fixed_symbol seg /\
+  sg_follows_segment (class_pass_down classes seg) = sg_follows_segment seg /\
+  sg_vram_class (class_pass_down classes seg) = sg_vram_class seg.
+Proof.
+  unfold class_pass_down. destruct (sg_vram_class seg) as [cn|] eqn:E; [|rewrite E; auto].
+  destruct (find_class cn classes) as [c|]; [|rewrite E; auto].
+  unfold pass_down_segment. destruct (vc_keep c); [rewrite E; auto| |];
+    (destruct (sg_keep seg); [cbn; rewrite E; auto | rewrite E; auto | rewrite E; auto]).
+Qed.
+
+Lemma map_res_Forall {A B} (f : A -> res B) (P : B -> Prop) :
+  (forall x y, f x = Ok y -> P y) -> forall l l', map_res f l = Ok l' -> Forall P l'.
+Proof.
+  intro Hf. induction l as [|x l IH]; intros l' H; simpl in H.
+  - apply ok_inj in H. subst. constructor.
+  - apply bind_ok in H. destruct H as [y [Ey H]]. apply bind_ok in H. destruct H as [ys [Eys H]].
+    apply ok_inj in H. subst. constructor; [eapply Hf; eassumption | apply IH; assumption].
+Qed.
+
+(* every segment of a parsed document sets at most one of the four address fields *)
+Lemma parse_at_most_one d doc : parse d = Ok doc -> Forall at_most_one_addr (doc_segments doc).
+Proof.
+  unfold parse. destruct (serde_ok d); [|discriminate]. unfold unserialize_document. intro H.
+  apply bind_ok in H. destruct H as [sto [_ H]].
+  apply bind_ok in H. destruct H as [st [_ H]].
+  apply bind_ok in H. destruct H as [u [_ H]].
+  apply bind_ok in H. destruct H as [scl [_ H]].
+  apply bind_ok in H. destruct H as [classes [_ H]].
+  apply bind_ok in H. destruct H as [segments [Es H]].
+  repeat (apply bind_ok in H; destruct H as [? [_ H]]).
+  apply ok_inj in H. subst doc. cbn [doc_segments].
+  apply (map_res_Forall _ at_most_one_addr (parse_segment_at_most_one st)) in Es.
+  induction Es as [|seg l Hs Hl IH]; simpl; constructor; [|assumption].
+  unfold at_most_one_addr, addr_fields in *.
+  destruct (class_pass_down_addr classes seg) as [E1 [E2 [E3 E4]]]. rewrite E1, E2, E3, E4. assumption.
+Qed.
+
+(* ---------- a property of statements that holds of everything the section groups contain ---------- *)
+
+Section StmtPass.
+  Variable P : stmt -> Prop.
+  Hypothesis P_blank : P SBlank.
+  Hypothesis P_fill : forall n, P (SFill n).
+  Hypothesis P_input : forall k p m s w, P (SInput k p m s w).
+  Hypothesis P_dotadd : forall n, P (SDotAdd n).
+  Hypothesis P_aligndot : forall n, P (SAlign "." n).
+  Hypothesis P_linker : forall sty sym e, style_name sty sym -> P (linker_symbol sym e).
+  Hypothesis P_gp : forall p h off, P (SAssign p h false "_gp" (EDotPlus off)).
+  Hypothesis P_outsec : forall name addr at_ noload sub body, Forall P body -> P (SOutSec name addr at_ noload sub body).
+
+  Ltac gp_leaf :=
+    repeat match goal with
+           | |- Forall _ (_ ++ _) => apply Forall_app; split
+           | |- Forall _ (match ?x with _ => _ end) => destruct x
+           | |- Forall _ (if ?x then _ else _) => destruct x
+           | |- Forall _ (_ :: _) => constructor
+           | |- Forall _ [] => constructor
+           | |- P (linker_symbol _ _) => eapply P_linker; sn
+           | |- P (SAlign "." _) => apply P_aligndot
+           | |- P (SAssign _ _ false "_gp" _) => apply P_gp
+           | |- P SBlank => apply P_blank
+           | |- P (SFill _) => apply P_fill
+           end.
+
+  Lemma gp_opt_align a : Forall P (opt_align a).
+  Proof. unfold opt_align. gp_leaf. Qed.
+
+  Lemma gp_gp_stmt rt seg section : Forall P (gp_stmt rt seg section).
+  Proof. unfold gp_stmt. gp_leaf. Qed.
+
+  Lemma gp_section_symbol_start rt sty cfg seg section : Forall P (section_symbol_start rt sty cfg seg section).
+  Proof.
+    unfold section_symbol_start. destruct (section_syms cfg); [|constructor].
+    fa; try apply gp_opt_align; try apply gp_gp_stmt. gp_leaf.
+  Qed.
+
+  Lemma gp_section_symbol_end sty cfg seg section : Forall P (section_symbol_end sty cfg seg section).
+  Proof.
+    unfold section_symbol_end. destruct (section_syms cfg); [|constructor].
+    fa; try apply gp_opt_align. unfold sym_end_size. gp_leaf.
+  Qed.
+
+  Lemma gp_kind_start sty cfg seg noload : Forall P (sections_kind_start sty cfg seg noload).
+  Proof. unfold sections_kind_start. gp_leaf. Qed.
+
+  Lemma gp_kind_end sty cfg seg noload : Forall P (sections_kind_end sty cfg seg noload).
+  Proof. unfold sections_kind_end, sym_end_size. gp_leaf. Qed.
+
+  Lemma gp_opt_fill seg : Forall P (opt_fill seg).
+  Proof. unfold opt_fill. gp_leaf. Qed.
+
+  Lemma gp_emitter sty wild offs g : emitter sty wild offs g ->
+    forall ws s ws', g ws = Ok (s, ws') -> Forall P s.
+  Proof.
+    apply (emitter_rel sty wild offs (fun _ s _ => Forall P s)); intros.
+    - constructor.
+    - apply Forall_app; split; assumption.
+    - repeat constructor. apply P_input.
+    - repeat constructor. apply P_dotadd.
+    - constructor; [|constructor]. apply (P_linker sty). sn.
+  Qed.
+
+  Lemma gp_emit_section rt sty cfg seg sections base section ws s ws' :
+    emit_section rt sty cfg seg sections base section ws = Ok (s, ws') -> Forall P s.
+  Proof. apply (gp_emitter sty (wildcard_sections seg) (offs_of_segment rt seg)). apply emit_section_emitter. Qed.
+
+  Lemma gp_part_groups rt st cfg seg sections rest : forall ws s ws',
+    part_groups rt st cfg seg sections rest ws = Ok (s, ws') -> Forall P s.
+  Proof.
+    induction rest as [|section rest IH]; intros ws s ws' H.
+    - apply ok_inj in H. inversion H; subst. constructor.
+    - apply part_groups_cons in H. destruct H as [s1 [ws1 [s2 [E1 [E2 E]]]]]. subst.
+      fa.
+      + apply gp_section_symbol_start.
+      + eapply gp_emit_section; eassumption.
+      + apply gp_section_symbol_end.
+      + gp_leaf.
+      + eapply IH; eassumption.
+  Qed.
+
+  Lemma gp_write_segment rt st cfg seg sections noload ws s ws' :
+    write_segment rt st cfg seg sections noload ws = Ok (s, ws') -> Forall P s.
+  Proof.
+    intro H. apply write_segment_inv in H. destruct H as [body [E H]]. subst.
+    fa; [apply gp_kind_start | | apply gp_kind_end].
+    constructor; [|constructor]. apply P_outsec. apply Forall_app; split; [apply gp_opt_fill|].
+    eapply gp_part_groups; eassumption.
+  Qed.
+
+  Lemma gp_single_groups rt st cfg seg sections noload rest : forall ws s ws',
+    single_groups rt st cfg seg sections noload rest ws = Ok (s, ws') -> Forall P s.
+  Proof.
+    induction rest as [|section rest IH]; intros ws s ws' H.
+    - apply ok_inj in H. inversion H; subst. constructor.
+    - apply single_groups_cons in H. destruct H as [s1 [ws1 [s2 [E1 [E2 E]]]]]. subst.
+      fa.
+      + apply gp_section_symbol_start.
+      + constructor; [|constructor]. apply P_outsec.
+        apply Forall_app; split; [apply gp_opt_fill|]. eapply gp_emit_section; eassumption.
+      + apply gp_section_symbol_end.
+      + gp_leaf.
+      + eapply IH; eassumption.
+  Qed.
+
+  Lemma gp_write_single_segment rt st cfg seg sections noload ws s ws' :
+    write_single_segment rt st cfg seg sections noload ws = Ok (s, ws') -> Forall P s.
+  Proof.
+    intro H. apply write_single_segment_inv in H. destruct H as [body [E H]]. subst.
+    fa; [apply gp_kind_start | | apply gp_kind_end].
+    eapply gp_single_groups; eassumption.
+  Qed.
+End StmtPass.
+
+(* ---------- single-segment mode ---------- *)
+
+Definition nodot (s : stmt) : Prop := sets_dot s = false.
+
+Lemma nodot_linker sty sym e : style_name sty sym -> nodot (linker_symbol sym e).
+Proof. intro H. unfold nodot, linker_symbol. cbn [sets_dot]. apply (style_name_eqb sty); [assumption|reflexivity]. Qed.
+
+Lemma nodot_outsec name addr at_ noload sub body : Forall nodot body -> nodot (SOutSec name addr at_ noload sub body).
+Proof. intro H. unfold nodot. cbn [sets_dot]. apply existsb_false_Forall. exact H. Qed.
+
+Lemma nodot_write_single rt st cfg seg sections noload ws s ws' :
+  write_single_segment rt st cfg seg sections noload ws = Ok (s, ws') -> Forall nodot s.
+Proof.
+  apply (gp_write_single_segment nodot); try reflexivity.
+  - apply nodot_linker.
+  - apply nodot_outsec.
+Qed.
+
+Lemma nodot_write_segment rt st cfg seg sections noload ws s ws' :
+  write_segment rt st cfg seg sections noload ws = Ok (s, ws') -> Forall nodot s.
+Proof.
+  apply (gp_write_segment nodot); try reflexivity.
+  - apply nodot_linker.
+  - apply nodot_outsec.
+Qed.
+
+Lemma nodot_end_sections st classes ws : Forall nodot (end_sections_body st classes ws).
+Proof.
+  rewrite end_sections_layout.
+  assert (Hparts : Forall (Forall nodot)
+                     [tail_sizes st classes ws; tail_allow st; tail_extra st; tail_discard st]).
+  { repeat constructor.
+    - apply Forall_map_intro. intro cn. apply (nodot_linker (linker_symbols_style st)). sn.
+    - apply Forall_map_intro. reflexivity.
+    - apply Forall_map_intro. reflexivity.
+    - unfold tail_discard. destruct (orb _ _); repeat constructor. }
+  induction Hparts as [|p r Hp Hr IH]; [constructor|]. simpl. destruct p as [|y p]; [exact IH|].
+  apply Forall_app; split; [exact Hp|]. destruct (sep_concat r); [constructor|].
+  constructor; [reflexivity | exact IH].
+Qed.
+
+(* single-segment mode: ". = fixed_vram" once, in the head, before every output section; no header
+   has an address *)
+Theorem single_start_once rt stg cfg classes seg ws s ws' :
+  add_single_segment rt stg cfg classes seg ws = Ok (s, ws') ->
+  exists rest,
+    s = [SSections (single_head stg cfg seg ++ rest)] /\
+    filter sets_dot (single_head stg cfg seg) = single_start seg /\
+    headers (single_head stg cfg seg) = [] /\
+    existsb sets_dot rest = false /\
+    Forall (fun h => snd (fst (fst h)) = None) (headers rest).
+Proof.
+  intro H. pose proof (script_single _ _ _ _ _ _ _ _ H) as [all [Eall [_ [Hh _]]]].
+  apply add_single_segment_inv in H. destruct H as [s1 [ws1 [s2 [E1 [E2 E]]]]]. subst s.
+  eexists. split; [reflexivity|].
+  destruct (headers_quiet _ (quiet_single_head stg cfg seg)) as [A0 _].
+  split; [|split; [exact A0|split]].
+  - rewrite single_head_shape. unfold single_start.
+    destruct (section_syms cfg), (hardcoded_gp_value stg), (sg_fixed_vram seg); reflexivity.
+  - apply existsb_false_Forall. fa.
+    + eapply nodot_write_single; eassumption.
+    + repeat constructor.
+    + eapply nodot_write_single; eassumption.
+    + repeat constructor.
+    + apply nodot_end_sections.
+  - assert (Ea : all = single_head stg cfg seg ++ s1 ++ [SBlank] ++ s2 ++ [SBlank] ++ end_sections_body stg classes ws')
+      by (inversion Eall; reflexivity).
+    rewrite Ea, headers_app, A0 in Hh. cbn [app] in Hh |- *. rewrite Hh.
+    apply Forall_app; split; apply Forall_map_intro; reflexivity.
+Qed.
+
+(* ====================================================================== *)
+(* link level                                                              *)
+(* ====================================================================== *)
+
+Local Open Scope Z_scope.
+
+Section Link.
+  Variables (env : list (string * Z)) (senv : list osec) (ext : list (string * Z)) (final : bool).
+
+  Notation top := (exec_top_stmt env senv ext final).
+  Notation runl := (run env senv ext final).
+
+  (* ---------- one output section ---------- *)
+
+  Theorem outsec_start name addr at_ noload sub body st vma :
+    outsec_vma env senv ext addr sub body st = Ok vma ->
+    sizes_ok st ->
+    let st' := exec_outsec env senv ext final name addr at_ noload sub body st in
+    exists o, l_secs st' = (l_secs st ++ [o])%list /\ os_name o = name /\ os_vma o = vma /\
+              os_noload o = noload /\ 0 <= os_size o /\ l_dot st' = os_vma o + os_size o /\ sizes_ok st'.
+  Proof.
+    intros Hv Hsz st'.
+    destruct (exec_outsec_ok env senv ext final name addr at_ noload sub body st vma Hv)
+      as [Hd [_ [_ [Hs [_ [Hr _]]]]]].
+    eexists. split; [exact Hs|]. cbn [os_name os_vma os_noload os_size]. repeat split; try assumption.
+    - apply outsec_body_off. assumption.
+    - unfold sizes_ok, st'. rewrite Hr. unfold outsec_body.
+      destruct (sec_fold_remaining env senv ext final vma (option_map Z.of_N sub) name body (SState 0 false st)) as [f E].
+      rewrite E. apply Forall_filter. exact Hsz.
+  Qed.
+
+  Lemma outsec_failed name addr at_ noload sub body st e :
+    outsec_vma env senv ext addr sub body st = Err e ->
+    exec_outsec env senv ext final name addr at_ noload sub body st = add_err (LForwardRef name) st.
+  Proof. apply exec_outsec_err. Qed.
+
+  (* X_VRAM = ADDR(.X) *)
+  Theorem vram_symbol st x sec o :
+    x <> "."%string -> sec_lookup sec st senv = Some o ->
+    top st (linker_symbol x (EAddr sec)) = set_sym x (os_vma o) false st.
+  Proof.
+    intros Hd Ho. unfold linker_symbol. cbn [exec_top_stmt]. apply String.eqb_neq in Hd. rewrite Hd.
+    cbn [eval_expr]. rewrite Ho. reflexivity.
+  Qed.
+
+  Theorem set_dot_literal st p h r v :
+    top st (SAssign p h r "." (EHex8 v)) = set_dot (Z.of_N v) st.
+  Proof. reflexivity. Qed.
+
+  (* ---------- statements that keep "." and create no section ---------- *)
+
+  Lemma keeps_dot_no_sec s : keeps_dot s = true -> makes_sec s = [].
+  Proof. destruct s; try reflexivity; discriminate. Qed.
+
+  Lemma top_keeps st s :
+    keeps_dot s = true ->
+    l_dot (top st s) = l_dot st /\ l_secs (top st s) = l_secs st /\ (sizes_ok st -> sizes_ok (top st s)).
+  Proof.
+    intro H. split; [apply top_dot; assumption|]. split.
+    - destruct (top_secs env senv ext final st s) as [new [E F]]. rewrite (keeps_dot_no_sec s H) in F.
+      destruct new as [|o new]; [rewrite app_nil_r in E; exact E|]. inversion F as [|x l Hx _]. destruct Hx.
+    - intro Hsz. unfold sizes_ok. destruct (top_remaining env senv ext final st s) as [f E]. rewrite E.
+      apply Forall_filter. exact Hsz.
+  Qed.
+
+  Lemma run_keeps l : forall st,
+    forallb keeps_dot l = true ->
+    l_dot (runl l st) = l_dot st /\ l_secs (runl l st) = l_secs st /\ (sizes_ok st -> sizes_ok (runl l st)).
+  Proof.
+    induction l as [|s l IH]; intros st H; [auto|]. cbn [forallb] in H. apply andb_true_iff in H.
+    destruct H as [H1 H2]. rewrite run_cons. destruct (IH (top st s) H2) as [A [B C]].
+    destruct (top_keeps st s H1) as [A1 [B1 C1]]. rewrite A, B, A1, B1. auto.
+  Qed.
+
+  Lemma run_align_pair_dot a st :
+    l_dot (runl (align_pair a) st) = align_up (l_dot st) (align_z a) /\
+    l_secs (runl (align_pair a) st) = l_secs st /\ (sizes_ok st -> sizes_ok (runl (align_pair a) st)).
+  Proof.
+    destruct a as [n|]; cbn [align_pair align_z]; [|rewrite run_nil, align_up_1; auto].
+    rewrite run_cons, run_one. destruct (top_keeps st (SAlign "__romPos" n) eq_refl) as [A [B C]].
+    rewrite top_align_dot. cbn [set_dot l_dot l_secs]. rewrite A, B. repeat split. intro Hsz. apply C in Hsz. exact Hsz.
+  Qed.
+
+  (* ---------- one segment ---------- *)
+
+  Lemma keeps_dot_linker sty sym e : style_name sty sym -> keeps_dot (linker_symbol sym e) = true.
+  Proof.
+    intro H. unfold linker_symbol. cbn [keeps_dot]. rewrite (style_name_eqb sty sym "." H); reflexivity.
+  Qed.
+
+  Lemma keeps_foot_class stg seg : forallb keeps_dot (foot_class stg seg) = true.
+  Proof. unfold foot_class. destruct (sg_vram_class seg); reflexivity. Qed.
+
+  Theorem segment_vram_general stg seg cls a1 addr at1 sub body1 b1 a2 at2 sub2 body2 b2 st0 :
+    let sty := linker_symbols_style stg in
+    let name := sg_name seg in
+    let VS := segment_vram_start sty name in
+    let VE := segment_vram_end sty name in
+    let VZ := segment_vram_size sty name in
+    let O1 := SOutSec (alloc_name seg) addr at1 false sub body1 in
+    let O2 := SOutSec (noload_name seg) None at2 true sub2 body2 in
+    let pre := (cls ++ seg_head stg seg ++ a1)%list in
+    let L := (pre ++ O1 :: b1 ++ [SBlank] ++ a2 ++ O2 :: b2 ++ [SBlank] ++ seg_foot stg seg)%list in
+    let stE := runl pre st0 in
+    let st' := runl L st0 in
+    forallb keeps_dot (cls ++ a1 ++ b1 ++ a2 ++ b2) = true ->
+    vram_names_distinct sty name L = true ->
+    ~ In (LForwardRef (alloc_name seg)) (l_errors st') ->
+    sizes_ok st0 ->
+    exists o1 o2 A2,
+      l_dot stE = align_up (l_dot st0) (align_z (segment_start_align seg)) /\
+      outsec_vma env senv ext addr sub body1 stE = Ok (os_vma o1) /\
+      l_secs st' = (l_secs st0 ++ [o1; o2])%list /\
+      os_name o1 = alloc_name seg /\ os_noload o1 = false /\ 0 <= os_size o1 /\
+      os_name o2 = noload_name seg /\ os_noload o2 = true /\ os_contents o2 = false /\ 0 <= os_size o2 /\
+      os_vma o2 = align_up (os_vma o1 + os_size o1) A2 /\ os_vma o1 + os_size o1 <= os_vma o2 /\
+      let ve := align_up (os_vma o2 + os_size o2) (align_z (segment_end_align seg)) in
+      l_dot st' = ve /\ val st' VE = Some ve /\
+      (forall v, val st' VS = Some v -> val st' VZ = Some (ve - v)) /\
+      (forall o, sec_lookup (alloc_name seg) st0 senv = Some o -> val st' VS = Some (os_vma o)).
+  Proof.
+    intros sty name VS VE VZ O1 O2 pre L stE st' Hk Hdist Herr Hsz.
+    set (RS := segment_rom_start sty name). set (RE := segment_rom_end sty name).
+    set (RZ := segment_rom_size sty name).
+    set (sRS := linker_symbol RS (ESym "__romPos")).
+    set (sVS := linker_symbol VS (EAddr (alloc_name seg))).
+    set (sVE := linker_symbol VE EDot).
+    set (sVZ := linker_symbol VZ (EAbsSub VE VS)).
+    set (sRE := linker_symbol RE (ESym "__romPos")).
+    set (sRZ := linker_symbol RZ (EAbsSub RE RS)).
+    set (A := (cls ++ align_pair (segment_start_align seg) ++ [sRS])%list).
+    set (M := (a1 ++ O1 :: b1 ++ SBlank :: a2 ++ O2 :: b2 ++ SBlank :: SRomAdd (alloc_name seg) ::
+               align_pair (segment_end_align seg))%list).
+    set (T := (sRE :: sRZ :: foot_class stg seg)%list).
+    assert (EL : L = (A ++ sVS :: M ++ sVE :: sVZ :: T)%list).
+    { unfold L, pre, A, M, T. rewrite seg_foot_split, seg_head_split. cbv zeta. unfold sym_end_size.
+      fold sty name RS RE RZ VS VE VZ. fold sRS sVS sVE sVZ sRE sRZ.
+      repeat (rewrite <- app_assoc; cbn [app]). reflexivity. }
+    assert (EL2 : L = ((A ++ sVS :: M) ++ sVE :: sVZ :: T)%list).
+    { rewrite EL. repeat (rewrite <- app_assoc; cbn [app]). reflexivity. }
+    assert (EL3 : L = ((A ++ sVS :: M ++ [sVE]) ++ sVZ :: T)%list).
+    { rewrite EL. repeat (rewrite <- app_assoc; cbn [app]). reflexivity. }
+    unfold vram_names_distinct in Hdist. apply andb_true_iff in Hdist. destruct Hdist as [Hdist HdZ].
+    apply andb_true_iff in Hdist. destruct Hdist as [HdS HdE].
+    assert (Hself : forall x e, assigns x (linker_symbol x e) = true) by (intros; apply String.eqb_refl).
+    rewrite EL in HdS. apply defined_once_split in HdS; [|apply Hself]. destruct HdS as [_ HS].
+    rewrite EL2 in HdE. apply defined_once_split in HdE; [|apply Hself]. destruct HdE as [_ HE].
+    rewrite EL3 in HdZ. apply defined_once_split in HdZ; [|apply Hself]. destruct HdZ as [_ HZ].
+    fold VS in HS. fold VE in HE. fold VZ in HZ.
+    assert (NVS : VS <> "."%string) by (apply (style_name_neq sty); [sn|reflexivity]).
+    assert (NVE : VE <> "."%string) by (apply (style_name_neq sty); [sn|reflexivity]).
+    assert (NVZ : VZ <> "."%string) by (apply (style_name_neq sty); [sn|reflexivity]).
+    (* keeps_dot of the parts *)
+    rewrite !forallb_app in Hk. repeat (apply andb_true_iff in Hk; destruct Hk as [?Hk Hk]).
+    rename Hk0 into Kcls, Hk1 into Ka1, Hk2 into Kb1, Hk3 into Ka2, Hk into Kb2.
+    (* A *)
+    set (stA := runl A st0).
+    assert (PA : l_dot stA = align_up (l_dot st0) (align_z (segment_start_align seg)) /\
+                 l_secs stA = l_secs st0 /\ sizes_ok stA).
+    { unfold stA, A. rewrite !run_app. destruct (run_keeps cls st0 Kcls) as [A1 [A2 A3]].
+      destruct (run_align_pair_dot (segment_start_align seg) (runl cls st0)) as [B1 [B2 B3]].
+      destruct (run_keeps [sRS] (runl (align_pair (segment_start_align seg)) (runl cls st0))) as [C1 [C2 C3]].
+      { cbn [forallb]. unfold sRS. rewrite (keeps_dot_linker sty) by sn. reflexivity. }
+      rewrite C1, C2, B1, B2, A1, A2. repeat split. apply C3, B3, A3, Hsz. }
+    destruct PA as [A1 [A2 A3]].
+    set (stS := top stA sVS).
+    assert (KVS : keeps_dot sVS = true) by (unfold sVS; apply (keeps_dot_linker sty); sn).
+    assert (KVE : keeps_dot sVE = true) by (unfold sVE; apply (keeps_dot_linker sty); sn).
+    assert (KVZ : keeps_dot sVZ = true) by (unfold sVZ; apply (keeps_dot_linker sty); sn).
+    destruct (top_keeps stA sVS KVS) as [S1 [S2 S3]]. fold stS in S1, S2, S3.
+    (* a1 *)
+    assert (EE : stE = runl a1 stS).
+    { unfold stE, pre, stS, stA, A. rewrite seg_head_split. cbv zeta. fold sty name RS VS sRS sVS.
+      repeat (rewrite run_app || rewrite run_cons). reflexivity. }
+    destruct (run_keeps a1 stS Ka1) as [E1 [E2 E3]]. rewrite <- EE in E1, E2, E3.
+    specialize (S3 A3). specialize (E3 S3).
+    assert (Est' : st' = runl T (top (top (runl (align_pair (segment_end_align seg))
+                       (runl (b2 ++ [SBlank; SRomAdd (alloc_name seg)])
+                          (top (runl (b1 ++ SBlank :: a2) (top stE O1)) O2))) sVE) sVZ)).
+    { unfold st'. rewrite EL, EE. unfold M, stS, stA.
+      repeat (rewrite run_app || rewrite run_cons). reflexivity. }
+    (* the allocatable section *)
+    destruct (outsec_vma env senv ext addr sub body1 stE) as [vma|e] eqn:Evma.
+    2:{ exfalso. apply Herr. rewrite Est'. repeat (apply run_errors_in || (rewrite run_cons; apply run_errors_in)).
+        assert (Hin : In (LForwardRef (alloc_name seg)) (l_errors (top stE O1))).
+        { unfold O1. cbn [exec_top_stmt]. rewrite (exec_outsec_err _ _ _ _ _ _ _ _ _ _ _ _ Evma).
+          cbn [add_err l_errors]. apply in_or_app. right. left. reflexivity. }
+        set (stF := top stE O1) in *.
+        assert (H1 : In (LForwardRef (alloc_name seg)) (l_errors (top (runl (b1 ++ SBlank :: a2) stF) O2))).
+        { destruct (top_errors env senv ext final (runl (b1 ++ SBlank :: a2) stF) O2) as [new E]. rewrite E.
+          apply in_or_app. left. apply run_errors_in. exact Hin. }
+        set (stH := top (runl (b1 ++ SBlank :: a2) stF) O2) in *.
+        assert (H2 : In (LForwardRef (alloc_name seg))
+                        (l_errors (runl (align_pair (segment_end_align seg)) (runl (b2 ++ [SBlank; SRomAdd (alloc_name seg)]) stH))))
+          by (apply run_errors_in; apply run_errors_in; exact H1).
+        set (stJ := runl (align_pair (segment_end_align seg)) (runl (b2 ++ [SBlank; SRomAdd (alloc_name seg)]) stH)) in *.
+        change (top (top stJ sVE) sVZ) with (runl [sVE; sVZ] stJ). apply run_errors_in. exact H2. }
+    destruct (outsec_start (alloc_name seg) addr at1 false sub body1 stE vma Evma E3)
+      as [o1 [F2 [Fn [Fv [Fl [Fz [F1 F3]]]]]]].
+    change (exec_outsec env senv ext final (alloc_name seg) addr at1 false sub body1 stE) with (top stE O1) in F1, F2, F3.
+    set (stF := top stE O1) in *.
+    (* between the two sections *)
+    assert (Kmid : forallb keeps_dot (b1 ++ SBlank :: a2) = true).
+    { rewrite forallb_app. cbn [forallb keeps_dot]. rewrite Kb1, Ka2. reflexivity. }
+    destruct (run_keeps (b1 ++ SBlank :: a2) stF Kmid) as [G1 [G2 G3]]. specialize (G3 F3).
+    set (stG := runl (b1 ++ SBlank :: a2) stF) in *.
+    (* the noload section *)
+    set (AL2 := body_align (option_map Z.of_N sub2) body2 (l_remaining stG) 1).
+    destruct (outsec_start (noload_name seg) None at2 true sub2 body2 stG (align_up (l_dot stG) AL2) eq_refl G3)
+      as [o2 [H2 [Hn [Hv [Hl [Hz [H1 H3]]]]]]].
+    assert (Hc : os_contents o2 = false).
+    { destruct (noload_section env senv ext final (noload_name seg) at2 sub2 body2 stG) as [o2' [Es [_ [_ [Hc _]]]]].
+      rewrite H2 in Es. apply app_inj_tail in Es. destruct Es as [_ Es]. subst o2'. exact Hc. }
+    change (exec_outsec env senv ext final (noload_name seg) None at2 true sub2 body2 stG) with (top stG O2) in H1, H2, H3.
+    set (stH := top stG O2) in *.
+    (* the rest up to the end alignment *)
+    assert (Kend : forallb keeps_dot (b2 ++ [SBlank; SRomAdd (alloc_name seg)]) = true).
+    { rewrite forallb_app, Kb2. reflexivity. }
+    destruct (run_keeps (b2 ++ [SBlank; SRomAdd (alloc_name seg)]) stH Kend) as [I1 [I2 I3]]. specialize (I3 H3).
+    set (stI := runl (b2 ++ [SBlank; SRomAdd (alloc_name seg)]) stH) in *.
+    destruct (run_align_pair_dot (segment_end_align seg) stI) as [J1 [J2 _]].
+    set (stJ := runl (align_pair (segment_end_align seg)) stI) in *.
+    set (ve := align_up (os_vma o2 + os_size o2) (align_z (segment_end_align seg))).
+    assert (J1' : l_dot stJ = ve) by (rewrite J1, I1, H1; reflexivity).
+    set (stK := top stJ sVE) in *.
+    assert (EK : stK = set_sym VE ve false stJ) by (unfold stK, sVE; rewrite top_sym_dot, J1' by assumption; reflexivity).
+    set (stL := top stK sVZ) in *.
+    assert (KT : forallb keeps_dot T = true).
+    { unfold T, sRE, sRZ. cbn [forallb]. rewrite !(keeps_dot_linker sty) by sn. apply keeps_foot_class. }
+    destruct (run_keeps T stL KT) as [T1 [T2 _]].
+    destruct (top_keeps stK sVZ KVZ) as [L1 [L2 _]]. fold stL in L1, L2.
+    (* symbols *)
+    assert (VEfin : val st' VE = Some ve).
+    { rewrite Est'. fold stF stG stH stI stJ stK. unfold val.
+      change (runl T stL) with (runl (sVZ :: T) stK).
+      rewrite (run_syms env senv ext final (sVZ :: T) VE stK HE).
+      rewrite EK. apply lookup_set_sym_same. }
+    assert (VSfin : val st' VS = val stS VS).
+    { unfold st', val. rewrite EL, run_app, run_cons. fold stA stS. apply run_syms. assumption. }
+    assert (VSK : val stK VS = val stS VS).
+    { assert (EKK : stK = runl (M ++ [sVE]) stS).
+      { unfold stK, stJ, stI, stH, stG, stF, M. rewrite EE.
+        repeat (rewrite run_app || rewrite run_cons). reflexivity. }
+      rewrite EKK. unfold val. apply run_syms. rewrite existsb_app in HS. apply orb_false_iff in HS.
+      destruct HS as [HS1 HS2]. cbn [existsb] in HS2. apply orb_false_iff in HS2. destruct HS2 as [HS2 _].
+      rewrite existsb_app, HS1. cbn [existsb]. rewrite HS2. reflexivity. }
+    exists o1, o2, AL2.
+    split; [rewrite E1, S1, A1; reflexivity|].
+    split; [rewrite Fv; reflexivity|].
+    split.
+    { rewrite Est'. fold stF stG stH stI stJ stK stL. rewrite T2, L2.
+      unfold stK. destruct (top_keeps stJ sVE KVE) as [_ [K2 _]].
+      rewrite K2, J2, I2, H2, G2, F2, E2, S2, A2. rewrite <- app_assoc. reflexivity. }
+    split; [exact Fn|]. split; [exact Fl|]. split; [exact Fz|].
+    split; [exact Hn|]. split; [exact Hl|]. split; [exact Hc|]. split; [exact Hz|].
+    split; [rewrite Hv, G1, F1; reflexivity|].
+    split; [rewrite Hv, G1, F1; apply align_up_le|].
+    cbv zeta. fold ve.
+    split.
+    { rewrite Est'. fold stF stG stH stI stJ stK stL. rewrite T1, L1, EK. exact J1'. }
+    split; [exact VEfin|].
+    split.
+    - intros v Hv'. rewrite VSfin, <- VSK in Hv'.
+      assert (EL' : stL = set_sym VZ (ve - v) false stK).
+      { unfold stL, sVZ. apply top_abssub; try assumption. rewrite EK. apply lookup_set_sym_same. }
+      rewrite Est'. fold stF stG stH stI stJ stK stL. unfold val. rewrite run_syms by assumption.
+      rewrite EL'. apply lookup_set_sym_same.
+    - intros o Ho. rewrite VSfin.
+      assert (Ho' : sec_lookup (alloc_name seg) stA senv = Some o).
+      { unfold sec_lookup in *. rewrite A2. exact Ho. }
+      unfold stS, sVS. rewrite (vram_symbol stA VS (alloc_name seg) o NVS Ho'). apply lookup_set_sym_same.
+  Qed.
+
+  (* ---------- what add_segment emits ---------- *)
+
+  Lemma kd_kind_start sty cfg seg noload : forallb keeps_dot (sections_kind_start sty cfg seg noload) = true.
+  Proof.
+    unfold sections_kind_start. destruct (kind_syms cfg); [|reflexivity]. cbn [forallb].
+    rewrite (keeps_dot_linker sty) by sn. reflexivity.
+  Qed.
+
+  Lemma kd_kind_end sty cfg seg noload : forallb keeps_dot (sections_kind_end sty cfg seg noload) = true.
+  Proof.
+    unfold sections_kind_end, sym_end_size. destruct (kind_syms cfg); [|reflexivity]. cbn [forallb].
+    rewrite !(keeps_dot_linker sty) by sn. reflexivity.
+  Qed.
+
+  Lemma forallb_map_true {A B} (f : B -> bool) (g : A -> B) l : (forall x, f (g x) = true) -> forallb f (map g l) = true.
+  Proof. intro H. induction l; simpl; [reflexivity|]. rewrite H. assumption. Qed.
+
+  Lemma kd_class_start stg c cn : forallb keeps_dot (class_start_stmts stg c cn) = true.
+  Proof.
+    unfold class_start_stmts. rewrite forallb_app. apply andb_true_iff. split.
+    - destruct (vc_fixed_vram c); [|destruct (vc_fixed_symbol c)]; cbn [forallb];
+        rewrite (keeps_dot_linker (linker_symbols_style stg)) by sn; try reflexivity.
+      apply forallb_map_true. reflexivity.
+    - cbn [forallb]. rewrite (keeps_dot_linker (linker_symbols_style stg)) by sn. reflexivity.
+  Qed.
+
+  Lemma kd_class_part stg classes seg ws cls ws1 :
+    class_part stg classes seg ws = Ok (cls, ws1) -> forallb keeps_dot cls = true.
+  Proof.
+    intro Ec. apply class_part_inv in Ec. destruct Ec as [[E _] | [cn [c [_ [_ [_ [E _]]]]]]]; subst;
+      [reflexivity | apply kd_class_start].
+  Qed.
+
+  (* the symbols assigned before the allocatable section of a segment is reached *)
+  Definition prefix_names (stg : settings) (cfg : wcfg) (seg : segment) : list string :=
+    let sty := linker_symbols_style stg in
+    ["__romPos"%string; "."%string; segment_rom_start sty (sg_name seg); segment_vram_start sty (sg_name seg);
+     segment_vram_start sty (kind_name seg false)] ++
+    match sg_vram_class seg with
+    | Some cn => [vram_class_start sty cn; vram_class_end sty cn]
+    | None => []
+    end.
+
+  Lemma prefix_frame stg classes cfg seg ws cls ws1 x :
+    class_part stg classes seg ws = Ok (cls, ws1) ->
+    ~ In x (prefix_names stg cfg seg) ->
+    existsb (assigns x) (cls ++ seg_head stg seg ++ sections_kind_start (linker_symbols_style stg) cfg seg false) = false.
+  Proof.
+    intros Ec Hx. unfold prefix_names in Hx. cbv zeta in Hx.
+    assert (N : forall y, In y (["__romPos"%string; "."%string; segment_rom_start (linker_symbols_style stg) (sg_name seg);
+                                 segment_vram_start (linker_symbols_style stg) (sg_name seg);
+                                 segment_vram_start (linker_symbols_style stg) (kind_name seg false)] ++
+                                match sg_vram_class seg with
+                                | Some cn => [vram_class_start (linker_symbols_style stg) cn;
+                                              vram_class_end (linker_symbols_style stg) cn]
+                                | None => [] end) -> String.eqb y x = false).
+    { intros y Hy. apply String.eqb_neq. intro E. subst y. contradiction. }
+    rewrite !existsb_app. repeat (apply orb_false_iff; split).
+    - apply class_part_inv in Ec. destruct Ec as [[Ecls _] | [cn [c [Hcn [_ [_ [Ecls _]]]]]]]; subst cls; [reflexivity|].
+      rewrite Hcn in N.
+      assert (N1 : String.eqb (vram_class_start (linker_symbols_style stg) cn) x = false)
+        by (apply N; apply in_or_app; right; simpl; tauto).
+      assert (N2 : String.eqb (vram_class_end (linker_symbols_style stg) cn) x = false)
+        by (apply N; apply in_or_app; right; simpl; tauto).
+      unfold class_start_stmts. rewrite existsb_app. apply orb_false_iff. split.
+      + destruct (vc_fixed_vram c); [|destruct (vc_fixed_symbol c)]; cbn [existsb assigns linker_symbol];
+          rewrite N1; try reflexivity.
+        cbn [orb]. induction (vc_follows_classes c) as [|o l IH]; [reflexivity|]. cbn [map existsb assigns].
+        rewrite N1. exact IH.
+      + cbn [existsb assigns linker_symbol]. rewrite N2. reflexivity.
+    - unfold seg_head. rewrite existsb_app. apply orb_false_iff. split.
+      + destruct (segment_start_align seg); [|reflexivity]. cbn [existsb assigns].
+        rewrite (N "__romPos"%string), (N "."%string) by (apply in_or_app; left; simpl; tauto). reflexivity.
+      + cbn [existsb assigns linker_symbol].
+        rewrite !N by (apply in_or_app; left; simpl; tauto). reflexivity.
+    - unfold sections_kind_start. destruct (kind_syms cfg); [|reflexivity]. cbn [existsb assigns linker_symbol].
+      rewrite N by (apply in_or_app; left; simpl; tauto). reflexivity.
+  Qed.
+
+  Theorem segment_vram rt stg cfg classes seg ws s ws' st0 :
+    add_segment rt stg cfg classes seg ws = Ok (s, ws') ->
+    should_emit rt (sg_conds seg) = true ->
+    let sty := linker_symbols_style stg in
+    let name := sg_name seg in
+    let st' := runl s st0 in
+    vram_names_distinct sty name s = true ->
+    ~ In (LForwardRef (alloc_name seg)) (l_errors st') ->
+    sizes_ok st0 ->
+    exists cls ws1 body1 o1 o2 A2,
+      class_part stg classes seg ws = Ok (cls, ws1) /\
+      let stE := runl (cls ++ seg_head stg seg ++ sections_kind_start sty cfg seg false) st0 in
+      l_dot stE = align_up (l_dot st0) (align_z (segment_start_align seg)) /\
+      outsec_vma env senv ext (segment_addr sty seg) (subalign seg) body1 stE = Ok (os_vma o1) /\
+      l_secs st' = (l_secs st0 ++ [o1; o2])%list /\
+      os_name o1 = alloc_name seg /\ os_noload o1 = false /\ 0 <= os_size o1 /\
+      os_name o2 = noload_name seg /\ os_noload o2 = true /\ os_contents o2 = false /\ 0 <= os_size o2 /\
+      os_vma o2 = align_up (os_vma o1 + os_size o1) A2 /\ os_vma o1 + os_size o1 <= os_vma o2 /\
+      let ve := align_up (os_vma o2 + os_size o2) (align_z (segment_end_align seg)) in
+      l_dot st' = ve /\ val st' (segment_vram_end sty name) = Some ve /\
+      (forall v, val st' (segment_vram_start sty name) = Some v ->
+                 val st' (segment_vram_size sty name) = Some (ve - v)) /\
+      (forall o, sec_lookup (alloc_name seg) st0 senv = Some o ->
+                 val st' (segment_vram_start sty name) = Some (os_vma o)).
+  Proof.
+    intros H Hc sty name st' Hdist Herr Hsz. apply add_segment_inv in H.
+    destruct H as [[Hc' _] | [_ [cls [ws1 [s1 [ws2 [s2 [Ec [E1 [E2 E]]]]]]]]]]; [congruence|].
+    pose proof (kd_class_part _ _ _ _ _ _ Ec) as K0.
+    apply write_segment_inv in E1. destruct E1 as [body1 [_ E1]]. rewrite alloc_name_outsec in E1.
+    apply write_segment_inv in E2. destruct E2 as [body2 [_ E2]]. rewrite noload_name_outsec in E2.
+    set (ks := sections_kind_start (linker_symbols_style stg) cfg seg false) in *.
+    set (ke := sections_kind_end (linker_symbols_style stg) cfg seg false) in *.
+    set (ks2 := sections_kind_start (linker_symbols_style stg) cfg seg true) in *.
+    set (ke2 := sections_kind_end (linker_symbols_style stg) cfg seg true) in *.
+    set (RS := segment_rom_start sty name).
+    assert (Es : s = ((cls ++ seg_head stg seg ++ ks) ++
+                      SOutSec (alloc_name seg) (segment_addr sty seg) (Some RS) false (subalign seg) (opt_fill seg ++ body1) ::
+                      ke ++ [SBlank] ++ ks2 ++
+                      SOutSec (noload_name seg) None None true (subalign seg) (opt_fill seg ++ body2) ::
+                      ke2 ++ [SBlank] ++ seg_foot stg seg)%list).
+    { rewrite E, E1, E2. repeat (rewrite <- app_assoc; cbn [app]). reflexivity. }
+    subst st'. rewrite Es in Hdist, Herr |- *.
+    destruct (segment_vram_general stg seg cls ks (segment_addr sty seg) (Some RS) (subalign seg) (opt_fill seg ++ body1)
+                ke ks2 None (subalign seg) (opt_fill seg ++ body2) ke2 st0)
+      as [o1 [o2 [A2 [C1 [C2 C3]]]]]; try assumption.
+    { rewrite !forallb_app, K0. unfold ks, ke, ks2, ke2. rewrite !kd_kind_start, !kd_kind_end. reflexivity. }
+    exists cls, ws1, (opt_fill seg ++ body1), o1, o2, A2.
+    split; [exact Ec|]. cbv zeta. fold ks. split; [exact C1|]. split; [exact C2|]. exact C3.
+  Qed.
+
+  (* ---------- the start address by kind of request ---------- *)
+
+  Theorem requested_start sty seg sub body stE vma :
+    at_most_one_addr seg ->
+    outsec_vma env senv ext (segment_addr sty seg) sub body stE = Ok vma ->
+    (forall v, sg_fixed_vram seg = Some v -> vma = Z.of_N v) /\
+    (forall s, sg_fixed_symbol seg = Some s -> eval_raw env ext stE s = Ok vma) /\
+    (forall f, sg_follows_segment seg = Some f -> sym_lookup (segment_vram_end sty f) stE env ext = Some vma) /\
+    (forall c, sg_vram_class seg = Some c -> sym_lookup (vram_class_start sty c) stE env ext = Some vma) /\
+    (sg_fixed_vram seg = None -> sg_fixed_symbol seg = None -> sg_follows_segment seg = None ->
+     sg_vram_class seg = None ->
+     vma = align_up (l_dot stE) (body_align (option_map Z.of_N sub) body (l_remaining stE) 1)).
+  Proof.
+    intros Hone Hv. destruct (addr_spec sty seg Hone) as [S1 [S2 [S3 [S4 S5]]]]. repeat split.
+    - intros v E. rewrite (S1 v E) in Hv. cbn in Hv. apply ok_inj in Hv. symmetry. exact Hv.
+    - intros s E. rewrite (S2 s E) in Hv. exact Hv.
+    - intros f E. rewrite (S3 f E) in Hv. cbn [outsec_vma eval_expr] in Hv.
+      destruct (sym_lookup (segment_vram_end sty f) stE env ext); [|discriminate]. apply ok_inj in Hv. congruence.
+    - intros c E. rewrite (S4 c E) in Hv. cbn [outsec_vma eval_expr] in Hv.
+      destruct (sym_lookup (vram_class_start sty c) stE env ext); [|discriminate]. apply ok_inj in Hv. congruence.
+    - intros E1 E2 E3 E4. rewrite (S5 E1 E2 E3 E4) in Hv. cbn [outsec_vma] in Hv. apply ok_inj in Hv.
+      symmetry. exact Hv.
+  Qed.
+
+  (* the text of fixed_symbol, when it is a plain symbol name, evaluates to the value of that symbol *)
+  Lemma eval_raw_plain_symbol st s v :
+    defined_arg s = None -> split_on " " s = [s] -> parse_num s = None ->
+    sym_lookup s st env ext = Some v -> eval_raw env ext st s = Ok v.
+  Proof.
+    intros Hd Hs Hn Hv. unfold eval_raw. rewrite Hd, Hs. unfold atom. rewrite Hn, Hv. reflexivity.
+  Qed.
+
+  (* symbols the statements in between do not assign keep their value, whoever defines them *)
+  Lemma sym_lookup_frame l st x :
+    existsb (assigns x) l = false -> sym_lookup x (runl l st) env ext = sym_lookup x st env ext.
+  Proof. intro H. unfold sym_lookup. rewrite (run_syms env senv ext final l x st H). reflexivity. Qed.
+
+  (* a segment without address request placed right after another one starts where that one ended:
+     at the previous VRAM_END, rounded up to its own start alignment and to what its contents need *)
+  Theorem default_start_after rt stg cfg classes a b ws sa ws1 sb ws2 st0 :
+    add_segment rt stg cfg classes a ws = Ok (sa, ws1) ->
+    add_segment rt stg cfg classes b ws1 = Ok (sb, ws2) ->
+    should_emit rt (sg_conds a) = true -> should_emit rt (sg_conds b) = true ->
+    sg_fixed_vram b = None -> sg_fixed_symbol b = None -> sg_follows_segment b = None -> sg_vram_class b = None ->
+    let sty := linker_symbols_style stg in
+    let st1 := runl sa st0 in
+    let st2 := runl (sa ++ sb) st0 in
+    vram_names_distinct sty (sg_name a) sa = true ->
+    vram_names_distinct sty (sg_name b) sb = true ->
+    (forall n, ~ In (LForwardRef n) (l_errors st2)) ->
+    sizes_ok st0 ->
+    exists ve oa1 oa2 ob1 ob2 A,
+      val st1 (segment_vram_end sty (sg_name a)) = Some ve /\ l_dot st1 = ve /\
+      l_secs st2 = (l_secs st0 ++ [oa1; oa2; ob1; ob2])%list /\
+      os_name ob1 = alloc_name b /\
+      os_vma ob1 = align_up (align_up ve (align_z (segment_start_align b))) A.
+  Proof.
+    intros Ha Hb Hca Hcb F1 F2 F3 F4 sty st1 st2 Da Db Herr Hsz.
+    assert (E2 : st2 = runl sb st1) by (unfold st2, st1; apply run_app).
+    destruct (segment_vram rt stg cfg classes a ws sa ws1 st0 Ha Hca Da) as
+      (clsa & wa & ba & oa1 & oa2 & Aa & _ & _ & _ & Sa & _ & _ & _ & _ & _ & _ & _ & _ & _ & Dota & VEa & _).
+    { fold st1. intro Hin. apply (Herr (alloc_name a)). rewrite E2. apply run_errors_in. exact Hin. }
+    { exact Hsz. }
+    fold st1 in Sa, Dota, VEa.
+    destruct (segment_vram rt stg cfg classes b ws1 sb ws2 st1 Hb Hcb Db) as
+      (clsb & wb & bb & ob1 & ob2 & Ab & Ecb & Dotb & Vb & Sb & Nb & _).
+    { rewrite <- E2. apply Herr. }
+    { unfold st1. apply run_remaining_Forall. exact Hsz. }
+    cbv zeta in Dotb, Vb. unfold segment_addr in Vb. rewrite F1, F2, F3, F4 in Vb. fold sty in Dotb, Vb.
+    cbn [outsec_vma] in Vb. apply ok_inj in Vb. rewrite Dotb in Vb.
+    eexists _, oa1, oa2, ob1, ob2, _. split; [exact VEa|]. split; [exact Dota|].
+    split; [rewrite E2, Sb, Sa, <- app_assoc; reflexivity|]. split; [exact Nb|].
+    rewrite <- Vb, Dota. reflexivity.
+  Qed.
+
+  (* ---------- the named parts of the property, read off segment_vram ---------- *)
+
+  Theorem noload_follows rt stg cfg classes seg ws s ws' st0 :
+    add_segment rt stg cfg classes seg ws = Ok (s, ws') ->
+    should_emit rt (sg_conds seg) = true ->
+    let sty := linker_symbols_style stg in
+    let st' := runl s st0 in
+    vram_names_distinct sty (sg_name seg) s = true ->
+    ~ In (LForwardRef (alloc_name seg)) (l_errors st') ->
+    sizes_ok st0 ->
+    exists o1 o2,
+      l_secs st' = (l_secs st0 ++ [o1; o2])%list /\
+      os_name o1 = alloc_name seg /\ os_name o2 = noload_name seg /\
+      os_noload o1 = false /\ os_noload o2 = true /\
+      0 <= os_size o1 /\ os_vma o1 + os_size o1 <= os_vma o2.
+  Proof.
+    intros H Hc sty st' Hd He Hsz.
+    destruct (segment_vram rt stg cfg classes seg ws s ws' st0 H Hc Hd He Hsz)
+      as (cls & ws1 & b1 & o1 & o2 & A2 & _ & _ & _ & S & N1 & L1 & Z1 & N2 & L2 & _ & _ & _ & F & _).
+    exists o1, o2. repeat split; assumption.
+  Qed.
+
+  Theorem vram_end rt stg cfg classes seg ws s ws' st0 :
+    add_segment rt stg cfg classes seg ws = Ok (s, ws') ->
+    should_emit rt (sg_conds seg) = true ->
+    let sty := linker_symbols_style stg in
+    let name := sg_name seg in
+    let st' := runl s st0 in
+    vram_names_distinct sty name s = true ->
+    ~ In (LForwardRef (alloc_name seg)) (l_errors st') ->
+    sizes_ok st0 ->
+    exists o1 o2,
+      l_secs st' = (l_secs st0 ++ [o1; o2])%list /\ os_name o2 = noload_name seg /\
+      let ve := align_up (os_vma o2 + os_size o2) (align_z (segment_end_align seg)) in
+      l_dot st' = ve /\ val st' (segment_vram_end sty name) = Some ve /\
+      (forall v, val st' (segment_vram_start sty name) = Some v ->
+                 val st' (segment_vram_size sty name) = Some (ve - v)).
+  Proof.
+    intros H Hc sty name st' Hd He Hsz.
+    destruct (segment_vram rt stg cfg classes seg ws s ws' st0 H Hc Hd He Hsz)
+      as (cls & ws1 & b1 & o1 & o2 & A2 & _ & _ & _ & S & _ & _ & _ & N2 & _ & _ & _ & _ & _ & D & V & Z & _).
+    exists o1, o2. repeat split; assumption.
+  Qed.
+
+  Theorem default_start rt stg cfg classes seg ws s ws' st0 :
+    add_segment rt stg cfg classes seg ws = Ok (s, ws') ->
+    should_emit rt (sg_conds seg) = true ->
+    sg_fixed_vram seg = None -> sg_fixed_symbol seg = None -> sg_follows_segment seg = None ->
+    sg_vram_class seg = None ->
+    let sty := linker_symbols_style stg in
+    let st' := runl s st0 in
+    vram_names_distinct sty (sg_name seg) s = true ->
+    ~ In (LForwardRef (alloc_name seg)) (l_errors st') ->
+    sizes_ok st0 ->
+    exists o1 o2 A,
+      l_secs st' = (l_secs st0 ++ [o1; o2])%list /\ os_name o1 = alloc_name seg /\
+      os_vma o1 = align_up (align_up (l_dot st0) (align_z (segment_start_align seg))) A.
+  Proof.
+    intros H Hc F1 F2 F3 F4 sty st' Hd He Hsz.
+    destruct (segment_vram rt stg cfg classes seg ws s ws' st0 H Hc Hd He Hsz)
+      as (cls & ws1 & b1 & o1 & o2 & A2 & _ & Dot & V & S & N1 & _).
+    cbv zeta in Dot, V. unfold segment_addr in V. rewrite F1, F2, F3, F4 in V. cbn [outsec_vma] in V.
+    apply ok_inj in V. rewrite Dot in V. eexists o1, o2, _. split; [exact S|]. split; [exact N1|].
+    symmetry. exact V.
+  Qed.
+End Link.
+
+Lemma header_placement rt stg cfg classes seg ws s ws' :
+  add_segment rt stg cfg classes seg ws = Ok (s, ws') ->
+  headers s = (if should_emit rt (sg_conds seg) then segment_headers (linker_symbols_style stg) seg else []).
+Proof. intro H. exact (proj1 (headers_add_segment rt stg cfg classes seg ws s ws' H)). Qed.
+
+Lemma outsec_failed_some env senv ext final name e at_ noload sub body st err :
+  eval_expr env senv ext st (l_dot st) e = Err err ->
+  exec_outsec env senv ext final name (Some e) at_ noload sub body st = add_err (LForwardRef name) st.
+Proof. exact (outsec_failed env senv ext final name (Some e) at_ noload sub body st err). Qed.
